@@ -17,7 +17,8 @@ Inductive event :=
 | ESetInput (i : Z) (mode : Z) (ic : incfg)       (* 1 pcap file, 2 sockets, 3 jumbo pcap *)
 | EFrame (i : Z) (f : pframe)                      (* next record of the capture file *)
 | EDgram (i : Z) (port : Z) (d : bytes)            (* datagram sent to a UDP port of the host *)
-| EEof (i : Z).                                    (* end of the capture file (no repeat) *)
+| EEof (i : Z)                                     (* end of the capture file (no repeat) *)
+| EDestroy (i : Z).                                (* the instance is destroyed *)
 
 Inductive sout :=
 | SOut (i : Z) (o : out)
@@ -38,6 +39,9 @@ Fixpoint lookup {A} (l : list (Z * A)) (k : Z) : option A :=
   match l with [] => None | (k', v) :: r => if k =? k' then Some v else lookup r k end.
 Fixpoint update {A} (l : list (Z * A)) (k : Z) (v : A) : list (Z * A) :=
   match l with [] => [(k, v)] | (k', v') :: r => if k =? k' then (k, v) :: r else (k', v') :: update r k v end.
+
+Fixpoint remove_key {A} (l : list (Z * A)) (k : Z) : list (Z * A) :=
+  match l with [] => [] | (k', v) :: r => if k =? k' then remove_key r k else (k', v) :: remove_key r k end.
 
 (* memcpy of the packet over the pooled buffer: first two bytes *)
 Definition overlay2 (stale b : bytes) : bytes :=
@@ -83,6 +87,7 @@ Definition step (bl : build) (crc_table : list Z) (w : world) (e : event) : worl
       | _, _ => (w, [SNoDrv i])
       end
   | EEof i => (w, [SInErr i 2])
+  | EDestroy i => (mk_world (remove_key (w_drvs w) i) (w_th w) (w_now w) (w_host w) (remove_key (w_in w) i), [])
   | EInit i d c answers =>
       let '(v, th, o) := init_drv d c answers (1000 * (i + 1)) (w_th w) (w_now w) in
       (mk_world (update (w_drvs w) i (v, [0; 0])) th (w_now w) (w_host w) (w_in w), map (SOut i) o)
